@@ -55,6 +55,7 @@ import (
 	"github.com/segmentio/kafka-go/protocol/initproducerid"
 	"github.com/segmentio/kafka-go/protocol/joingroup"
 	"github.com/segmentio/kafka-go/protocol/leavegroup"
+	"github.com/segmentio/kafka-go/protocol/listgroups"
 	"github.com/segmentio/kafka-go/protocol/listoffsets"
 	"github.com/segmentio/kafka-go/protocol/listpartitionreassignments"
 	"github.com/segmentio/kafka-go/protocol/metadata"
@@ -333,6 +334,8 @@ func build(s reqSpec) protocol.Message {
 			r.Resources = append(r.Resources, incrementalalterconfigs.RequestResource{ResourceType: int8(t), ResourceName: x[1]})
 		}
 		return r
+	case "listgroups":
+		return &listgroups.Request{}
 	case "findcoordinator":
 		return &findcoordinator.Request{Key: s.group}
 	case "apiversions":
@@ -656,6 +659,9 @@ func newScenario(r *rand.Rand, ttl time.Duration) *scenario {
 		np := 1 + r.Intn(4)
 		for j := 0; j < np; j++ {
 			l := int32(ids[r.Intn(nb)])
+			if r.Intn(12) == 0 { // no leader at the moment (election) / a leader id that is not a listed broker
+				l = []int32{-1, 8}[r.Intn(2)]
+			}
 			t.Parts[int32(j)] = &fakecluster.Part{Leader: l, Replicas: []int32{l}, Isr: []int32{l}, Last: int64(r.Intn(100))}
 		}
 		if r.Intn(10) == 0 {
@@ -735,7 +741,7 @@ func (s *scenario) send(spec reqSpec) {
 		return id
 	}
 	switch {
-	case spec.pkg == "describegroups":
+	case spec.pkg == "describegroups" || (spec.pkg == "deletegroups" && len(spec.groups) > 0):
 		var cs []int32
 		for _, g := range spec.groups {
 			cs = append(cs, answered(g, 0))
@@ -773,11 +779,18 @@ func (s *scenario) send(spec reqSpec) {
 		}
 	}
 	sort.Strings(got)
+	kind := ""
+	if err != nil {
+		kind = errKind(err)
+		if spec.pkg == "listgroups" { // Merge reports the first failed broker in Go map order: any of the parts' errors
+			kind = "some"
+		}
+	}
 	switch {
 	case err != nil && len(got) == 0:
-		emit(op, "err "+errKind(err))
+		emit(op, "err "+kind)
 	case err != nil:
-		emit(op, strings.Join(got, ",")+" err "+errKind(err))
+		emit(op, strings.Join(got, ",")+" err "+kind)
 	default:
 		emit(op, dash(strings.Join(got, ",")))
 	}
@@ -786,7 +799,11 @@ func (s *scenario) send(spec reqSpec) {
 func (s *scenario) randomSpec() reqSpec {
 	r := s.r
 	meta := s.c.LastMeta()
-	switch r.Intn(10) {
+	switch r.Intn(12) {
+	case 10:
+		return reqSpec{pkg: pick(r, resourcePkgs), resources: randomResources(r)}
+	case 11:
+		return reqSpec{pkg: "listgroups"}
 	case 0, 1, 2, 3:
 		// rawproduce needs pre-encoded record batches on the wire: its Broker() is covered at F level only
 		return reqSpec{pkg: pick(r, []string{"produce", "fetch", "listoffsets"}), tps: randomTps(r, meta, r.Intn(4) == 0)}
